@@ -786,3 +786,109 @@ def call_coercer(ex, node, st):
             ko.assume(cls(e) == K("ValidationError"), T.alloc0[e])
             outs.append((ko, "exc", e))
     return outs
+
+
+# --- int(x) / bool(x) -----------------------------------------------------------------
+INT_OF = z3.Function("int_of", Val, Val)
+INT_PARSE_OK = z3.Function("int_parse_ok", Val, T.B)
+FLOAT_PARSE_OK = z3.Function("float_parse_ok", Val, T.B)
+FLOAT_OF_STR = z3.Function("float_of_str", Val, Val)
+FLOAT_TO_INT_OK = z3.Function("float_to_int_ok", Val, T.B)  # finite
+
+
+def b_int(ex, node, st):
+    """int(x): int -> x (its int value); float -> truncation, OverflowError for inf, ValueError
+    for nan; str -> parse or ValueError; anything else of the builtin classes -> TypeError"""
+    outs = []
+    for s, k, vs in ex.eval_many(node.args, st):
+        if k == "exc":
+            outs.append((s, k, vs))
+            continue
+        x = ex.val_of(vs[0])
+        c = cls(x)
+        si = s.fork().assume(sub(c, K("int")))
+        if ex.feasible(si):
+            outs.append((si, "val", sv_val(T.mkint(T.ival(x)))))
+        sf = s.fork().assume(sub(c, K("float")))
+        if ex.feasible(sf):
+            ok = sf.fork().assume(FLOAT_TO_INT_OK(x))
+            r = INT_OF(x)
+            ok.assume(cls(r) == K("int"), T.alloc0[r])
+            outs.append((ok, "val", sv_val(r)))
+            bad = sf.fork().assume(z3.Not(FLOAT_TO_INT_OK(x)))
+            outs.append(_exc(ex, bad.fork(), "OverflowError"))
+            outs.append(_exc(ex, bad.fork(), "ValueError"))
+        ss = s.fork().assume(sub(c, K("str")))
+        if ex.feasible(ss):
+            ok = ss.fork().assume(INT_PARSE_OK(x))
+            r = INT_OF(x)
+            ok.assume(cls(r) == K("int"), T.alloc0[r])
+            outs.append((ok, "val", sv_val(r)))
+            outs.append(_exc(ex, ss.fork().assume(z3.Not(INT_PARSE_OK(x))), "ValueError"))
+        so = s.fork().assume(z3.Not(z3.Or(sub(c, K("int")), sub(c, K("float")), sub(c, K("str")))))
+        if ex.feasible(so):
+            # None, containers: TypeError; other classes may define __int__ / __index__ (unknown)
+            outs.append(_exc(ex, so.fork(), "TypeError"))
+            other = so.fork().assume(z3.Not(z3.Or(x == T.None_, sub(c, K("list")), sub(c, K("dict")), sub(c, K("tuple")), sub(c, K("set")))))
+            if ex.feasible(other):
+                r = ex.fresh("intv")
+                other.assume(cls(r) == K("int"))
+                outs.append((other, "val", sv_val(r)))
+    return outs
+
+
+def b_float_full(ex, node, st):
+    outs = []
+    for s, k, vs in ex.eval_many(node.args, st):
+        if k == "exc":
+            outs.append((s, k, vs))
+            continue
+        x = ex.val_of(vs[0])
+        c = cls(x)
+        ss = s.fork().assume(sub(c, K("str")))
+        rest = s.fork().assume(z3.Not(sub(c, K("str"))))
+        if ex.feasible(ss):
+            ok = ss.fork().assume(FLOAT_PARSE_OK(x))
+            r = FLOAT_OF_STR(x)
+            ok.assume(cls(r) == K("float"), T.alloc0[r])
+            outs.append((ok, "val", sv_val(r)))
+            outs.append(_exc(ex, ss.fork().assume(z3.Not(FLOAT_PARSE_OK(x))), "ValueError"))
+        if ex.feasible(rest):
+            isnum = z3.Or(sub(c, K("float")), sub(c, K("int")))
+            num = rest.fork().assume(isnum)
+            if ex.feasible(num):
+                sub_node = ast.Call(func=node.func, args=[ast.Name(id="__x", ctx=ast.Load())], keywords=[])
+                num.env = dict(num.env)
+                num.env["__x"] = sv_val(x)
+                outs.extend(b_float(ex, sub_node, num))
+            oth = rest.fork().assume(z3.Not(isnum))
+            if ex.feasible(oth):
+                outs.append(_exc(ex, oth.fork(), "TypeError"))
+                other = oth.fork().assume(z3.Not(z3.Or(x == T.None_, sub(c, K("list")), sub(c, K("dict")), sub(c, K("tuple")), sub(c, K("set")))))
+                if ex.feasible(other):
+                    r = ex.fresh("fltv")
+                    other.assume(cls(r) == K("float"))
+                    outs.append((other, "val", sv_val(r)))
+    return outs
+
+
+def b_bool(ex, node, st):
+    outs = []
+    for s, k, vs in ex.eval_many(node.args, st):
+        outs.append((s, k, vs) if k == "exc" else (s, "val", sv_bool(ex.truthy(s, vs[0]))))
+    return outs
+
+
+BUILTINS["int"] = b_int
+BUILTINS["bool"] = b_bool
+
+LOWER = z3.Function("str_lower", Val, Val)
+
+
+def m_lower(ex, node, st, rt):
+    r = LOWER(rt)
+    st.assume(cls(r) == K("str"), T.alloc0[r], T.hashable(r))
+    return [(st, "val", sv_val(r))]
+
+
+CONTAINER_METHODS["lower"] = m_lower
